@@ -66,3 +66,12 @@ class TempDir:
 
     def __exit__(self, *a):
         shutil.rmtree(self.path, ignore_errors=True)
+
+
+def abandon_loop():
+    """after a case was interrupted in the middle of loop.run_until_complete the loop is in an undefined state: drop it
+    (kept referenced so that its executor threads / selector are not torn down under running callbacks)"""
+    global _loop
+    if _loop is not None:
+        _inherited.append(_loop)
+        _loop = None
